@@ -43,8 +43,75 @@ def make_parts():
                 out.append(Case(c.name, c.header, c.ops + ['clear 0', 'push_back 0 0', 'push_back 0 1', 'size 0', 'clear 0'], 'random'))
             return out
     parts.append(SListClear())
-    for modname, fn in (('checks.c12', 'c15_part'), ('checks.c01', 'c15_parts'), ('checks.c07', 'c15_part'),
-                        ('checks.c08', 'c15_part')):
+    # doubly-linked list
+    try:
+        from checks.c12 import C12
+
+        class DListClear(C12):
+            pid = 'C15'
+
+            def corpus(self):
+                return []
+
+            def closure(self, tier):
+                def refill(c):
+                    l = c.ops[-1].split()[1]
+                    return ['push_back %s 0' % l, 'push_front %s 1' % l, 'push_back %s 2' % l, 'size %s' % l,
+                            'pop_back %s' % l, 'clear %s' % l, 'pop_front %s' % l]
+                return clear_cases(C12(), tier, refill)
+
+            def random_cases(self, tier, seed):
+                cs = C12.random_cases(self, tier, seed)
+                return [Case(c.name, c.header, c.ops + ['clear 0', 'push_back 0 0', 'push_front 0 1', 'size 0', 'clear 0'],
+                             'random') for c in cs[: (100 if tier == 'quick' else 1500)]]
+        parts.append(DListClear())
+    except ImportError:
+        pass
+    # binary tree and red-black tree
+    try:
+        from checks.c01 import C01
+
+        class TreeClear(C01):
+            pid = 'C15'
+
+            def corpus(self):
+                return []
+
+            def closure(self, tier):
+                def refill(c):
+                    return ['insert 0', 'insert 1', 'inserth 2', 'size', 'foreach fwd 0', 'clear', 'size', 'insert 1']
+                return clear_cases(C01(), tier, refill)
+
+            def random_cases(self, tier, seed):
+                cs = C01.random_cases(self, tier, seed)
+                return [Case(c.name, c.header, c.ops + ['clear', 'size', 'insert 0', 'insert 1', 'clear'], 'random')
+                        for c in cs[: (100 if tier == 'quick' else 800)]]
+        parts.append(TreeClear())
+    except ImportError:
+        pass
+    # heap
+    try:
+        from checks.c07 import C07
+
+        class HeapClear(C07):
+            pid = 'C15'
+
+            def corpus(self):
+                return []
+
+            def closure(self, tier):
+                def refill(c):
+                    return ['push 0', 'push 1', 'push 2', 'size', 'pop', 'clear', 'pop', 'push 1']
+                return clear_cases(C07(), tier, refill)
+
+            def random_cases(self, tier, seed):
+                cs = C07.random_cases(self, tier, seed)
+                return [Case(c.name, c.header, c.ops + ['clear', 'size', 'push 0', 'push 1', 'pop', 'clear'], 'random')
+                        for c in cs[: (60 if tier == 'quick' else 600)]]
+        parts.append(HeapClear())
+    except ImportError:
+        pass
+    for modname, fn in (('checks.c08', 'c15_part'),):
         try:
             mod = importlib.import_module(modname)
         except Exception:
